@@ -1,6 +1,7 @@
 package props
 
 import (
+	"math/rand"
 	"bytes"
 	"fmt"
 	"sort"
@@ -125,6 +126,20 @@ func TestC03(t *testing.T) {
 		r.Case(fmt.Sprintf("tree/%d", i), map[string]any{"tree": i, "depth": 3}, func(c *mon.Case) {
 			root := genTree(c.Rand(), 3+i%2*boolInt(!r.Quick()), true)
 			st := store.New()
+			if i%4 == 2 {
+				// some entities carry a modification time (UnixFS 1.5), also one before 1970
+				sr := rand.New(rand.NewSource(int64(c.Seed) ^ 0x5717))
+				for _, n := range root.all() {
+					if sr.Intn(3) == 0 {
+						v := []int64{-1, -86400 * 365, 0, 1, 1 << 33, -(1 << 40)}[sr.Intn(6)]
+						n.Stamp = &v
+						c.Count("entities_with_mtime", 1)
+						if v < 0 {
+							c.Count("entities_with_mtime_before_1970", 1)
+						}
+					}
+				}
+			}
 			if err := buildTree(st, root, nil); err != nil {
 				c.Harness("tree build: %v", err)
 				return
